@@ -642,7 +642,7 @@ def rename(r, suffix):
 
 
 def gen_seq(rng):
-    """2-3 operations on three shared sweeps (disjoint key pools); products avoid the regions of the known findings."""
+    """2-3 operations on three shared sweeps (disjoint key pools); products avoid the region of product-loses-zip."""
     nb = rng.choice([2, 3, 3])
     ps = pools(nb)
     rich = rng.random() < 0.5
@@ -651,27 +651,20 @@ def gen_seq(rng):
         for _ in range(50):
             r = gen_rsweep(rng, ps[i], tag=f"_{i}", maxkeys=2,
                            mode=rng.choice(["none", "none", "partition", "singletons"]))
-            if r["items"] and all(v for _, v in r["items"]) and n_base(r) <= 3:
+            if (r["items"] or rng.random() < 0.1) and n_base(r) <= 3:
                 break
         else:
             r = {"items": [[ps[i][0], [1, 2]]], "dims": None, "excl": None, "consts": None, "ders": None}
         if rich:
             if not r["consts"]:
                 r["consts"] = [[f"k0_{i}", copy.deepcopy(rng.choice(VALS))]]
-            if not r["ders"] and rng.random() < 0.7:
+            if not r["ders"] and r["items"] and rng.random() < 0.7:
                 r["ders"] = [[f"d0_{i}", ["sub", "t0", [r["items"][0][0]]]]]
         base.append(r)
     # generator-side picture of the objects (optimistic: every operation is assumed to succeed)
     objs = [{"multi": False, "members": []} for _ in base]
     slots = [{"obj": i, "multi": False, "bases": {i}, "dims_none": base[i]["dims"] is None, "prod": True}
              for i in range(nb)]
-
-    def reach(o, acc):
-        for m in objs[o]["members"]:
-            if m not in acc:
-                acc.add(m)
-                reach(m, acc)
-        return acc
 
     ops = []
     for _ in range(rng.choice([2, 3, 3])):
@@ -699,19 +692,9 @@ def gen_seq(rng):
                           "dims_none": slots[order[0]]["dims_none"], "prod": True})
         elif x < 0.70:
             i, j = rng.randrange(len(slots)), rng.randrange(len(slots))
-            a, b = slots[i]["obj"], slots[j]["obj"]
-            if objs[a]["multi"]:
-                add = list(objs[b]["members"]) if objs[b]["multi"] else [b]
-                if any(a == m or a in reach(m, set()) for m in add):
-                    continue  # would make the MultiSweep contain itself
-                objs[a]["members"] += add
-                ops.append(["add", i, j])
-                slots.append(dict(slots[i]))
-            else:
-                ops.append(["add", i, j])
-                objs.append({"multi": True, "members": [a, b]})
-                slots.append({"obj": len(objs) - 1, "multi": True, "bases": slots[i]["bases"] | slots[j]["bases"],
-                              "dims_none": True, "prod": False})
+            ops.append(["add", i, j])  # always a new MultiSweep object
+            slots.append({"obj": len(slots), "multi": True, "bases": slots[i]["bases"] | slots[j]["bases"],
+                          "dims_none": True, "prod": False})
         elif x < 0.85:
             i = rng.randrange(len(slots))
             ck = [k for b in sorted(slots[i]["bases"]) for k in combo_key_list(base[b])]
@@ -723,7 +706,7 @@ def gen_seq(rng):
         elif cand:
             i = rng.choice(cand)
             b0 = base[min(slots[i]["bases"])]
-            ops.append(["addder", i, [[f"z{len(ops)}", ["sub", "t9", [b0["items"][0][0]]]]]])
+            ops.append(["addder", i, [[f"z{len(ops)}", ["sub", "t9", [kv[0] for kv in b0["items"][:1]]]]]])
             objs.append({"multi": False, "members": []})
             slots.append({"obj": len(objs) - 1, "multi": False, "bases": slots[i]["bases"],
                           "dims_none": slots[i]["dims_none"], "prod": True})
@@ -908,7 +891,7 @@ def _impl_list(impl_obs):
 
 def _seq_finding(c, impl_obs):
     """Replays the slot bookkeeping of a sequence and names the first operation that lies in a known-finding region."""
-    slots = [{"multi": False, "dims_none": r["dims"] is None, "empty": not r["items"], "base": r} for r in c["base"]]
+    slots = [{"dims_none": r["dims"] is None} for r in c["base"]]
     for n, op in enumerate(c["ops"]):
         try:
             ok = impl_obs[n + 1][0] == "ok"
@@ -920,25 +903,17 @@ def _seq_finding(c, impl_obs):
         idx = [op[1], *op[2]] if kind == "product" else ([op[1], op[2]] if kind == "add" else [op[1]])
         if any(i >= len(slots) for i in idx):
             return None
-        if kind == "add":
-            if slots[op[1]]["multi"]:
-                return "multisweep-add-mutates-left"
-            slots.append({"multi": True, "dims_none": True, "empty": False, "base": None})
-        elif kind == "product":
+        if kind == "product":
             sl = [slots[i] for i in idx]
-            if any(s["empty"] for s in sl):
-                return "product-empty-operand-neutral"
             if sl[0]["dims_none"] and any(not s["dims_none"] for s in sl[1:]):
                 return "product-loses-zip"
-            slots.append({"multi": False, "dims_none": sl[0]["dims_none"], "empty": False, "base": None})
+            slots.append({"dims_none": sl[0]["dims_none"]})
+        elif kind == "add":
+            slots.append({"dims_none": True})
         elif kind == "filter":
-            b = slots[op[1]]["base"]
-            if b is not None and b["ders"] is None and any(len(v) == 0 for _, v in b["items"]):
-                return "filtered-ignores-empty-dimension"
-            slots.append({"multi": slots[op[1]]["multi"], "dims_none": False, "empty": False, "base": None})
+            slots.append({"dims_none": False})
         else:
-            s0 = slots[op[1]]
-            slots.append({"multi": False, "dims_none": s0["dims_none"], "empty": s0["empty"], "base": None})
+            slots.append({"dims_none": slots[op[1]]["dims_none"]})
     return None
 
 
@@ -948,18 +923,9 @@ def finding_id(c, impl_obs, kind):
         return _seq_finding(c, impl_obs)
     lst = _impl_list(impl_obs)
     if k == "product" and lst is not None:
-        ops = [c["r"], *c["others"]]
-        # a non-empty product although one operand has no items (hence no combinations)
-        if lst and any(not o["items"] for o in ops):
-            return "product-empty-operand-neutral"
         # the first operand has dims=None, a later one has dims: its grouping is ignored
         if c["r"]["dims"] is None and any(o["dims"] is not None for o in c["others"]):
             return "product-loses-zip"
-    if k in ("filter", "filterm") and lst:
-        # combinations out of a sweep (without derivers) that has an empty value list
-        sw = _sweeps_of(c)
-        if any(r["ders"] is None and any(len(v) == 0 for _, v in r["items"]) for r in sw):
-            return "filtered-ignores-empty-dimension"
     return None
 
 
